@@ -376,6 +376,43 @@ class Model(object):
             return self.expect(None)  # what Python returns here is C03's business
         return self.expect((n, int(sum(0.5 + i for i in range(n)) * 2)))
 
+    def op_arr_pat(self, n, c, _t):
+        if self.driver == "py":
+            hid = self.take_hand("newarr")
+            del self.hands[hid]
+            return self.expect((n, sum(900 + i for i in range(n))))
+        old = self.caps[c]
+        if old is not None and old in self.hands:
+            del self.hands[old]
+        hid = self.take_hand("newarr")
+        self.caps[c] = hid
+        return self.expect((n, sum(900 + i for i in range(n))))
+
+    def op_arr_sum(self, n, _b, _t):
+        return self.expect((sum(3 * i for i in range(1, n + 1)) + 1000000 * n,))
+
+    def op_bad_arr_sum(self, _a, _b, _t):
+        if self.driver != "py":
+            raise Invalid("python only")
+        return self.expect(None)
+
+    def op_char_grow(self, cap, _b, text):
+        if self.driver == "py":
+            raise Invalid("the Python wrapper passes the str object's own buffer (see char_inout)")
+        s = ftrim(fpad(text, cap))
+        if len(s) + 2 > cap:
+            raise Invalid("library would write past the declared length (user contract)")
+        return self.expect((cap, fpad(s + "!!", cap)))
+
+    def op_ref_item(self, s, _b, _t):
+        if self.lib_static is None:
+            self.lib_static = self.new_obj(7001, owner="library")
+        self.put(self.h, s, self.fresh(self.lib_static))
+        return self.expect(())
+
+    def op_vec_ret_d(self, n, _b, _t):
+        return self.expect((n, int(sum(0.25 + i for i in range(n)) * 4)))
+
     def op_cap_delete(self, c, _b, _t):
         hid = self.caps[c]
         if hid is not None and hid in self.hands:
@@ -395,7 +432,8 @@ OPS_COMMON = ["item_default", "item_val", "item_delete", "item_value", "item_set
               "str_ref", "str_val", "str_owned", "str_lib", "str_in", "str_out", "str_inout",
               "char_out", "char_ret", "char_inout",
               "vec_sum", "vec_iota", "vec_inc", "vec_alloc", "vec_ret", "vec_str_count",
-              "arr_new", "arr_lib", "arr_new_alloc", "cap_delete", "cap_scope"]
+              "arr_new", "arr_lib", "arr_new_alloc", "cap_delete", "cap_scope",
+              "arr_pat", "arr_sum", "char_grow", "ref_item", "vec_ret_d"]
 
 TEXTS = ["", " ", "a", "hello", "two words", "  lead", "trail  ", "exactly-twenty-chars", "x" * 40,
          "MiXeD 123 !?", "tab-less ~ text", "ends with blank "]
@@ -421,14 +459,14 @@ def gen_op(rng, model, enabled, uniq):
     if name == "cstr_out":
         return [name, 0, lengths(rng)]
     if name in ("item_default", "borrow_item", "default_item", "item_delete", "item_value", "item_label",
-                "use_item", "box_value", "item_release"):
+                "use_item", "box_value", "item_release", "ref_item"):
         return [name, s]
     if name in ("item_twin", "sum_items", "assign"):
         return [name, s, t]
     if name in ("str_ref", "str_lib", "arr_lib"):
         return [name]
     if name in ("str_val", "str_owned", "char_ret", "vec_sum", "vec_iota", "vec_inc", "vec_alloc", "vec_ret",
-                "arr_new_alloc", "cap_scope"):
+                "arr_new_alloc", "cap_scope", "arr_sum", "vec_ret_d"):
         return [name, lengths(rng)]
     if name == "str_in":
         text = rng.choice(TEXTS)
@@ -444,8 +482,14 @@ def gen_op(rng, model, enabled, uniq):
         return [name, rng.choice([len(text) + 1, len(text) + 2, 20, 21, 33]), 0, text]
     if name == "vec_str_count":
         return [name, rng.choice([0, 1, 2, 5]), rng.choice([1, 3, 8])]
-    if name == "arr_new":
+    if name in ("arr_new", "arr_pat"):
         return [name, lengths(rng), rng.randrange(NC)]
+    if name == "char_grow":
+        text = rng.choice(TEXTS)
+        n = len(text.rstrip(" "))
+        return [name, rng.choice([n + 2, n + 3, n + 9, max(0, n)]), 0, text]
+    if name == "bad_arr_sum":
+        return [name, rng.choice([0, 1, 3, 6]), rng.randrange(12)]
     if name == "cap_delete":
         return [name, rng.randrange(NC)]
     if name == "box_delete":
@@ -455,15 +499,15 @@ def gen_op(rng, model, enabled, uniq):
     if name == "bad_arg":
         return [name, rng.randrange(12), rng.randrange(6)]
     if name == "nomem":
-        return [name, rng.randrange(11), rng.choice([0, 0, 1, 1, 2, 3, 4, 6, 9])]
+        return [name, rng.randrange(14), rng.choice([0, 0, 1, 1, 2, 3, 4, 6, 9])]
     return None
 
 
-PY_ONLY = ["box_delete", "bad_vec_sum", "bad_arg", "nomem"]
+PY_ONLY = ["box_delete", "bad_vec_sum", "bad_arg", "nomem", "bad_arr_sum"]
 # char_inout: the Python wrapper hands the str object's own UTF-8 buffer to the library, which
 # upper-cases it in place and thereby corrupts interned strings of the interpreter (a C03 defect;
 # it would make later *values* wrong, so the op is not generated for Python)
-NOT_PY = ["copy_item", "vec_inc", "vec_str_count", "cap_delete", "cap_scope", "char_inout"]
+NOT_PY = ["copy_item", "vec_inc", "vec_str_count", "cap_delete", "cap_scope", "char_inout", "char_grow", "vec_ret_d"]
 
 
 C_ONLY = ["item_release", "cstr_ref", "cstr_lib", "cstr_owned", "cstr_in", "cstr_out", "cstr_inout"]
